@@ -36,6 +36,34 @@ theorem CompLevels.levelsOK {k m nl sz : Nat} {ls ls3 : List Nat} {level rawBeg 
       subst this
       rw [if_neg c0, if_pos rfl, eb]
 
+/-- a compaction keeps the total weight -/
+theorem CompLevels.weight {k m nl sz : Nat} {ls ls3 : List Nat} {level rawBeg rawLim half : Nat}
+    (c : CompLevels ls ls3 level rawBeg rawLim half) (lok : LevelsOK k m nl ls sz) (hlv : level + 2 ≤ nl)
+    (eb : ls.getD level 0 = rawBeg) (el : ls.getD (level + 1) 0 = rawLim) (hh : 2 * half ≤ rawLim - rawBeg) :
+    sumSampleWeights nl ls3 = sumSampleWeights nl ls := by
+  obtain ⟨_, hg⟩ := c
+  have hmono := lok.mono
+  rw [sumSampleWeights_eq, sumSampleWeights_eq]
+  have h12 := hmono (level + 1) (by omega)
+  have h01 := hmono level (by omega)
+  apply wsum_move (i := level) (hh := half) (by omega)
+  · simp only [pop]
+    rw [hg level, hg (level + 1), if_neg (by omega), if_pos rfl, if_neg (by omega), if_neg (by omega), if_pos rfl]
+    omega
+  · simp only [pop]
+    rw [hg (level + 1), hg (level + 1 + 1), if_neg (by omega), if_neg (by omega), if_pos rfl, if_neg (by omega),
+      if_neg (by omega), if_neg (by omega)]
+    omega
+  · intro l h1 h2
+    simp only [pop]
+    rw [hg l, hg (l + 1)]
+    by_cases c1 : l + 1 < level
+    · rw [if_pos c1, if_pos (by omega)]; omega
+    · by_cases c2 : l + 1 = level
+      · rw [if_neg c1, if_pos c2, if_pos (by omega)]
+        rw [← c2] at eb; omega
+      · rw [if_neg c1, if_neg c2, if_neg (by omega), if_neg (by omega), if_neg h1, if_neg h2]
+
 theorem compactAt_spec {S : Nat → Bool} (s : Sketch) {b : Nat} (level : Nat) (coins : List Bool) (hS : S b = true)
     (h : Heap) (hb : s.items = some b) (lok : LevelsOK s.k s.m s.numLevels s.levels s.itemsSize)
     (il : ItemsLive h b (s.levels.getD 0 0) s.itemsSize) (hlv : level + 2 ≤ s.numLevels)
@@ -43,7 +71,8 @@ theorem compactAt_spec {S : Nat → Bool} (s : Sketch) {b : Nat} (level : Nat) (
     SafeF S h (compactAt s level coins h)
       (fun r h' => ∃ ls3, r = ({ s with levels := ls3 }, (nextCoin coins).2) ∧
         LevelsOK s.k s.m s.numLevels ls3 s.itemsSize ∧ 1 ≤ ls3.getD 0 0 ∧
-        SameBut h h' (fun b' _ => b' = b) ∧ ItemsLive h' b (ls3.getD 0 0) s.itemsSize) := by
+        SameBut h h' (fun b' _ => b' = b) ∧ ItemsLive h' b (ls3.getD 0 0) s.itemsSize ∧
+        sumSampleWeights s.numLevels ls3 = sumSampleWeights s.numLevels s.levels) := by
   have hlen := lok.len
   have h0b : s.levels.getD 0 0 ≤ s.levels.getD level 0 := lok.le_of_le level 0 (Nat.zero_le _) (by omega)
   have hbl : s.levels.getD level 0 ≤ s.levels.getD (level + 1) 0 := lok.mono level (by omega)
@@ -73,7 +102,8 @@ theorem compactAt_spec {S : Nat → Bool} (s : Sketch) {b : Nat} (level : Nat) (
       SafeF S h1 (tail2 s b level rawBeg rawLim (rawLim - rawBeg) adjBeg adjPop (top - rawLim) l0 coins h1)
         (fun r h' => ∃ ls3, r = ({ s with levels := ls3 }, (nextCoin coins).2) ∧
           LevelsOK s.k s.m s.numLevels ls3 s.itemsSize ∧ 1 ≤ ls3.getD 0 0 ∧
-          SameBut h h' (fun b' _ => b' = b) ∧ ItemsLive h' b (ls3.getD 0 0) s.itemsSize) := by
+          SameBut h h' (fun b' _ => b' = b) ∧ ItemsLive h' b (ls3.getD 0 0) s.itemsSize ∧
+          sumSampleWeights s.numLevels ls3 = sumSampleWeights s.numLevels s.levels) := by
     intro h1 sb1 hraw1 hl1
     have r := tail2_spec (S := S) s (sz := s.itemsSize) (top := top) coins hS h1 (sb1.cells _ _ il.cells) (by omega)
       hl0 hrb hrl rfl h0b hbl hlt hts hp2 hodd hev hraw1 hl1
@@ -81,7 +111,8 @@ theorem compactAt_spec {S : Nat → Bool} (s : Sketch) {b : Nat} (level : Nat) (
     intro r' h' ⟨⟨ls3, er, cl⟩, sb', il'⟩
     obtain ⟨lok3, e3⟩ := cl.levelsOK lok hlv hrb hrl (by omega)
     rw [hl0] at e3
-    refine ⟨ls3, er, lok3, by omega, sb1.trans sb' (fun _ _ x => x) (fun _ _ x => x), by rw [e3]; exact il'⟩
+    refine ⟨ls3, er, lok3, by omega, sb1.trans sb' (fun _ _ x => x) (fun _ _ x => x), by rw [e3]; exact il',
+      cl.weight lok hlv hrb hrl (by omega)⟩
   by_cases hsort : level = 0 ∧ (!s.lvl0Sorted) = true
   · rw [if_pos hsort]
     apply vstep_sortRange il.cells (by omega) (fun j h1 h2 => il.live j (by omega) (by omega)) hS
@@ -129,7 +160,7 @@ theorem addEmptyTopLevel_spec {S : Nat → Bool} (s : Sketch) {b : Nat} (h : Hea
         (∀ i, i ≤ s.numLevels → L'.getD i 0 = s.levels.getD i 0 + levelCapacity s.k (s.numLevels + 1) 0 s.m) ∧
         ItemsLive h' h.next (L'.getD 0 0) (s.itemsSize + levelCapacity s.k (s.numLevels + 1) 0 s.m) ∧
         (∀ x, x ≠ b → x ≠ h.next → SameOn h h' x) ∧ h'.ids = (h.next :: h.ids).filter (fun x => x != b) ∧
-        h'.next = h.next + 1) := by
+        h'.next = h.next + 1 ∧ sumSampleWeights (s.numLevels + 1) L' = sumSampleWeights s.numLevels s.levels) := by
   have hlen := lok.len
   unfold addEmptyTopLevel
   apply step_lv (by omega)
@@ -169,7 +200,7 @@ theorem addEmptyTopLevel_spec {S : Nat → Bool} (s : Sketch) {b : Nat} (h : Hea
     rw [← hL, getD_set_ne _ _ _ _ (by omega), hgL1, if_pos ⟨Nat.zero_le _, by omega⟩, hgg _ (by omega)]
   have hgT : L.getD (s.numLevels + 1) 0 = s.itemsSize + dc := by
     rw [← hL, getD_set_eq _ _ _ (by omega)]
-  refine ⟨L, rfl, ⟨by omega, by omega, fun i hi => ?_, hgT, ?_⟩, hgL, ?_, ?_, ?_, ?_⟩
+  refine ⟨L, rfl, ⟨by omega, by omega, fun i hi => ?_, hgT, ?_⟩, hgL, ?_, ?_, ?_, ?_, ?_⟩
   · by_cases e : i = s.numLevels
     · subst e; rw [hgL _ (Nat.le_refl _), hgT, lok.top]; exact Nat.le_refl _
     · rw [hgL i (by omega), hgL (i + 1) (by omega)]
@@ -189,5 +220,16 @@ theorem addEmptyTopLevel_spec {S : Nat → Bool} (s : Sketch) {b : Nat} (h : Hea
       (so3 x hx1)
   · rw [hid3, sb2.ids, hid1]
   · rw [hnx3, sb2.next, hnx1]
+  · rw [sumSampleWeights_eq, sumSampleWeights_eq]
+    simp only [wsum]
+    have e1 : pop L s.numLevels = 0 := by
+      simp only [pop]; rw [hgT, hgL _ (Nat.le_refl _), lok.top]; omega
+    rw [e1, Nat.mul_zero, Nat.add_zero]
+    apply wsum_congr
+    intro l hl
+    simp only [pop]
+    rw [hgL l (by omega), hgL (l + 1) (by omega)]
+    have := lok.mono l hl
+    omega
 
 end DS.Life.Kll
